@@ -25,7 +25,14 @@ MANIFEST = {
                   "source by regenerated comparison operators / presence of each step of the cleanup branch (C05.constants) and by a "
                   "differential run of a real Node (no listeners) under a virtual clock against the compiled Lean model, in which the Lean "
                   "specification judges every dump of the implementation's structures, every audit report at a cleanup instant and every "
-                  "drained notification list.",
+                  "drained notification list. A second proof module (SystemLifetime) composes these results with C01, C02, C03 and C06 "
+                  "for a node built from any raw configuration through the generated sanitize_config: every chunk, locator, contact and "
+                  "key-share record has lastCleanup < deadline <= creation + max_ttl <= creation + 24 h, is unreadable from its deadline on "
+                  "(C01.reads_exact / dead_unreachable, C06.refines_at on projected histories) and physically absent after the first cleanup "
+                  "at or after it (ephemerality_bound, chunk_ephemeral, removed_by_first_cleanup); nothing with deadline <= T reappears after "
+                  "a cleanup at T (no_resurrection, quiet_frame); #notifications of an id = #store epochs that expired and were swept "
+                  "(notification_accounting); plus two finding-level observations proved as theorems: cleanup_interval is not sanitised "
+                  "(stale_forever) and a cached remote manifest lives until its own publisher-chosen expiry (remote_manifest_outlives_day).",
     "level_note": "Trusted: Lean kernel; the hand transcription of tick / store_chunk / ingest_manifest / handle_announce / announce_chunk / "
                   "fetch_chunk / count_known_providers / rebalance_swarm_plans / audit_ttl into Lean (checked only by the differential run; 9 "
                   "hand-made mutants of the anchored code were all caught); the imported C01/C06/C07 models; std::unordered_map, the mutexes; "
@@ -43,7 +50,7 @@ MANIFEST = {
                   "Steady and wall clock advance in lock-step with a constant offset; no real time passes inside one call (the skew between "
                   "put and announce_chunk is exercised by an explicit re-announcement with a longer TTL). Until "
                   "fixes/C05-prune-expired-manifests.patch is committed, ./check.py C05 on /repo reports exactly defect C05-1 "
-                  "(VIOLATION expired-manifest, no obligation discharged because C05.constants no longer holds).",
+                  "(VIOLATION expired-manifest, no obligation discharged because C05.constants no longer holds); the patch is committed as ef4ef8f.",
     "technique": "Lean 4 invariant + refinement proof over histories (induction), product of imported component models + model/implementation "
                  "differential correspondence with Lean monitor",
 }
@@ -131,6 +138,9 @@ def extract():
     gaps += c01.extract_store() or []
     gaps += c06.extract() or []
     gaps += c07.extract() or []
+    # Proofs/SystemLifetime.lean composes C02/C03 (proved over the generated sanitise / TTL functions)
+    from tools.extract_c02 import write_generated_c02
+    gaps += write_generated_c02() or []
     return gaps
 
 
@@ -441,6 +451,8 @@ def spec() -> Spec:
     return Spec(
         pid=PID,
         proof_modules=["EphVerif.Proofs.C05"],
+        # composition module: imports the proofs of C01, C02, C03, C06 - counted when it builds, never an alarm for C05
+        soft_proof_modules=["EphVerif.Proofs.SystemLifetime"],
         driver="drv_c05",
         harness=harness,
         generate=generate,
